@@ -160,7 +160,7 @@ func validateProtocolSequenceNames(env *Environment, errorSink *validation.Error
 
 func validateStreams(env *Environment, errorSink *validation.ErrorSink) *Environment {
 	VisitWithContext(env, nil, func(self VisitorWithContext[Node], node Node, context Node) {
-		switch node.(type) {
+		switch t := node.(type) {
 		case TypeDefinition:
 			self.VisitChildren(node, node)
 		case *Stream:
@@ -169,6 +169,14 @@ func validateStreams(env *Environment, errorSink *validation.ErrorSink) *Environ
 			}
 
 			self.VisitChildren(node, node)
+		case *GeneralizedType:
+			// Only the dimensionality of the step's own type is at the top level; the items are not.
+			if t.Dimensionality != nil {
+				self.Visit(t.Dimensionality, context)
+			}
+			for _, typeCase := range t.Cases {
+				self.Visit(typeCase, node)
+			}
 		default:
 			self.VisitChildren(node, context)
 		}
